@@ -22,6 +22,9 @@ func profileByName(name string) Profile {
 		p.W["write"] = 25
 		p.W["read"] = 15
 		p.W["truncate"] = 12
+		p.W["bigwrite"] = 4
+		p.W["shrinkrace"] = 5
+		p.Lazy = true
 	case "recycle": // C12: fill, delete/shrink, reuse
 		p.W["write"] = 30
 		p.W["truncate"] = 20
@@ -30,6 +33,8 @@ func profileByName(name string) Profile {
 		p.W["mkdir"] = 1
 		p.W["symlink"] = 1
 		p.W["stale"] = 0
+		p.W["shrinkrace"] = 5
+		p.Lazy = true
 		p.MaxWrite = 40000
 	case "reclaim": // C05: build, then delete everything
 		p.W["write"] = 14
@@ -40,6 +45,8 @@ func profileByName(name string) Profile {
 		p.W["stale"] = 1
 		p.W["restart"] = 1
 		p.Reclaim = true
+		p.Lazy = true
+		p.W["shrinkrace"] = 6
 	case "stale": // C08: heavy inode reuse, dead handles everywhere
 		p.W["write"] = 3
 		p.W["read"] = 2
@@ -181,7 +188,18 @@ func runSeq(idx int, seed int64, nops int, size uint64, prof string, unstable bo
 		r.Close()
 		return
 	}
+	lazy := g.p.Lazy && idx%3 != 0
+	if lazy {
+		o := Op{Id: 5000000, Proc: "autoidle:0"}
+		fmt.Fprintln(of, o.Sym())
+		r.Step(o)
+	}
 	for i := 0; i < nops; i++ {
+		if lazy && i > 0 && (i%17 == 0 || i == nops*6/10) {
+			o := Op{Id: 5000000 + i, Proc: "idle"}
+			fmt.Fprintln(of, o.Sym())
+			r.Step(o)
+		}
 		if g.p.Reclaim && i >= nops*6/10 {
 			g.deleting = true
 		}
@@ -192,6 +210,11 @@ func runSeq(idx int, seed int64, nops int, size uint64, prof string, unstable bo
 		fmt.Fprintln(of, o.Sym())
 		rep := r.Step(o)
 		g.Observe(o, rep)
+	}
+	if lazy {
+		o := Op{Id: 5900000, Proc: "idle"}
+		fmt.Fprintln(of, o.Sym())
+		r.Step(o)
 	}
 	r.Close()
 	return
